@@ -14,7 +14,9 @@ ID = "C05"
 LEVEL = "exploration"
 RULE = (
     "loop control: warm-up/measurement iterations {None,0,1,2,3} x {1,2,3}, warm-up/time periods {0,1,2.5} x {1,3}, parameter-source "
-    "bounded tasks, self-completing runners with explicit iterations; clients {1,2,4}; ramp-up {none,1,2} (time-based); scheduler "
+    "bounded tasks, explicit iterations on finite sources of size {1, w+n-1, w+n, w+n+1, 20}, self-completing runners with explicit "
+    "iterations; clients {1,2,4}; ramp-up {none,1,2} (time-based), ramp-up {2,8} inside parallel elements of 2..3 sub-tasks allocated by the "
+    "real Allocator; scheduler "
     "{unthrottled, deterministic, poisson(seeded)}; target {2, 10 ops/s, '20 docs/s', interval 0.25}; weight/unit {(1,ops),(5,docs)} incl. "
     "unit mismatch against an ops/s target; service-time words {(1/16), (1/2), (1, 1/16), (3)}. "
     "non-trivial = more than one request per client; distinct = configuration"
@@ -53,6 +55,12 @@ def configs(tier):
             # parameter source decides (finite source, no iterations / time period): progress comes from the source
             for tgt in (None, ("det", 10)):
                 yield ("source", clients, word, tgt, (1, "ops"), (3,), None)
+            # explicit iterations on a finite parameter source: whichever ends first decides (source sizes below, at and above w + n)
+            for w, n in ((None, 2), (1, 2), (2, 3)):
+                for m in (1, (w or 0) + n - 1, (w or 0) + n, (w or 0) + n + 1, 20):
+                    yield ("iter-source", clients, word, None, (1, "ops"), (w, n, m), None)
+                    if word == WORDS[0]:
+                        yield ("iter-source", clients, word, ("det", 10), (1, "ops"), (w, n, m), None)
             # runner that can report completion, but the task asks for explicit iterations
             for w, n in ((1, 2), (0, 3), (2, 1)):
                 yield ("completing", clients, word, None, (1, "ops"), (w, n), None)
@@ -114,7 +122,13 @@ def build(cfg):
         if sched == "poisson":
             task_kw["schedule"] = "poisson"
     op_params = {"weight": weight, "unit": unit}
-    if kind in ("iter", "completing"):
+    if kind == "iter-source":
+        w, n, m = lc
+        if w is not None:
+            task_kw["warmup_iterations"] = w
+        task_kw["iterations"] = n
+        op_params["source-size"] = m
+    elif kind in ("iter", "completing"):
         w, n = lc
         if w is not None:
             task_kw["warmup_iterations"] = w
@@ -201,6 +215,16 @@ def check(cfg, res):
                     v = ("warmup-flags", f"{ctx}: {types} for warmup-iterations={lc[0]} iterations={n}")
                 elif abs(prog[-1] - 1.0) > TOL:
                     v = ("final-progress", f"{ctx}: progress ends at {prog[-1]}")
+            elif kind == "iter-source":
+                w, n, m = lc
+                w = w or 0
+                want_n = min(w + n, m)
+                if len(ss) != want_n:
+                    v = ("iteration-count-finite-source", f"{ctx}: {len(ss)} requests for warmup-iterations={lc[0]} iterations={n} on a parameter source of {m} (expected {want_n})")
+                elif types != ([W] * w + [N] * n)[:want_n]:
+                    v = ("warmup-flags", f"{ctx}: {types} for warmup-iterations={lc[0]} iterations={n}, source of {m}")
+                elif m >= w + n and abs(prog[-1] - 1.0) > TOL:
+                    v = ("final-progress", f"{ctx}: progress ends at {prog[-1]}")
             elif kind == "time":
                 wt, t = lc
                 D = wt + t
@@ -269,15 +293,69 @@ def check(cfg, res):
         )
 
 
+def par_ramp_configs(tier):
+    """ramp-up inside a parallel element: the allocations come from the real Allocator, so the client numbering and the total that the
+    ramp-up delay is computed from are the real ones"""
+    for sizes in ((1, 1), (2, 2), (1, 3), (2, 1, 1)):
+        for ramp in (2, 8):
+            for word in ((0.0625,), (0.5,)):
+                for cap in (None,) if tier == "quick" else (None, sum(sizes)):
+                    yield ("par-ramp", sizes, word, ramp, cap)
+
+
+def check_par_ramp(cfg, res):
+    _, sizes, word, ramp, cap = cfg
+    e = loadgen.setup()
+    from esrally.track import track
+
+    tasks = [loadgen.make_task(f"t{j}", f"t{j}", clients=c, warmup_time_period=ramp, time_period=1, ramp_up_time_period=ramp) for j, c in enumerate(sizes)]
+    par_el = track.Parallel(tasks, clients=cap)
+    matrix = e["driver"].Allocator([par_el]).allocations
+    allocs = []
+    for g, row in enumerate(matrix):
+        tas = [x for x in row if isinstance(x, e["driver"].TaskAllocation)]
+        if len(tas) == 1:
+            allocs.append((g, tas[0]))
+    total = sum(sizes)
+    r = loadgen.run_worker(allocs, lambda entry: {"service_time": word[0], "body": {}}, on_error="continue", horizon=10_000.0)
+    v = None
+    if r.error is not None or r.loop_errors:
+        v = ("raises", f"{type(r.error).__name__ if r.error else ''}: {r.error} {r.loop_errors[:1]}")
+    elif len(allocs) != total:
+        v = ("allocation", f"{len(allocs)} clients with exactly one task for {total} requested")
+    else:
+        first = {}
+        for en in r.log:
+            first.setdefault(en["client_id"], en["t_start"])
+        for g in range(total):
+            want = ramp * g / total
+            if g not in first:
+                v = ("no-request", f"client {g} issued no request")
+            elif abs(first[g] - want) > TOL:
+                v = ("ramp-up-delay", f"client {g} of {total} (parallel of tasks with {list(sizes)} clients, ramp-up {ramp}): first request at {first[g]}, expected {want}")
+            if v:
+                break
+    res.case(
+        case_repr={"loop": "par-ramp", "sub_task_clients": list(sizes), "ramp_up": ramp, "service_times": list(word), "parallel_clients": cap} if res.sample_now(7) else None,
+        nontrivial_key=cfg,
+        outcome_key=("par-ramp", len(r.samples), v[0] if v else "ok"),
+    )
+    if v:
+        res.violation(f"schedule:{v[0]}:parallel", f"parallel ramp-up {cfg[1:]}: {v[1]}", {"par_ramp": [list(sizes), list(word), ramp, cap]})
+
+
 def _job(cfgs):
     res = Result()
     for cfg in cfgs:
-        check(cfg, res)
+        if cfg[0] == "par-ramp":
+            check_par_ramp(cfg, res)
+        else:
+            check(cfg, res)
     return res
 
 
 def run(tier, seed):
-    cfgs = list(configs(tier))
+    cfgs = list(configs(tier)) + list(par_ramp_configs(tier))
     res = par.pmap(_job, par.chunks(cfgs, par.NPROC * 8), seed=seed)
     res.extra["configurations"] = len(cfgs)
     res.states = res.evaluations
@@ -287,6 +365,10 @@ def run(tier, seed):
 
 def replay(data):
     res = Result()
+    if "par_ramp" in data:
+        pr = data["par_ramp"]
+        check_par_ramp(("par-ramp", tuple(pr[0]), tuple(pr[1]), pr[2], pr[3]), res)
+        return [v for lst in res.violations.values() for v in lst]
     c = data["cfg"]
     tgt = None
     if c[3]:
